@@ -65,6 +65,9 @@ InitPermsEnv == LET K == atoi(IOEnv.VERIF_K)
                     S == atoi(IOEnv.VERIF_SEED)
                 IN { f \in InitAll : (HashSeq(SortAsc(f[1]), 7) + S) % K = 0 }
 
+\* quick variant: at most about a third of the orderings of each selected multiset
+InitPermsEnvQ == { f \in InitPermsEnv : HashCv(f) % 3 = 0 }
+
 \* C06-focused next-state relation: rich FDWRA parameters, range updates and time-domain masks only
 \* to diversify the states FDWRA starts from
 NextC06 ==
